@@ -67,11 +67,11 @@ step_harness!(c12_q_full_rmarg_cnt, 8, 1, true, false, [(0, 0, 0), (0, 1, 0), (2
 step_harness!(c12_x_full_rmarg_it, 8, 1, false, true, [(0, 0, 0), (0, 1, 0), (2, 0, 1), (2, 1, 0), (2, 0, 0)]);
 step_harness!(c12_t_full_att_cnt, 8, 2, true, false, [(0, 0, 0), (0, 1, 0), (2, 0, 1), (2, 1, 0), (2, 0, 0)]);
 step_harness!(c12_q_full_rmatt_cnt, 8, 3, true, false, [(0, 0, 0), (0, 1, 0), (2, 0, 1), (2, 1, 0), (2, 0, 0)]);
-step_harness!(c12_x_full_rmatt_it, 8, 3, false, true, [(0, 0, 0), (0, 1, 0), (2, 0, 1), (2, 1, 0), (2, 0, 0)]);
+step_harness!(c12_z_full_rmatt_it, 8, 3, false, true, [(0, 0, 0), (0, 1, 0), (2, 0, 1), (2, 1, 0), (2, 0, 0)]);
 step_harness!(c12_t_tomb_attacker_add_cnt, 8, 0, true, false, [(0, 0, 0), (0, 1, 0), (2, 0, 1), (1, 0, 0)]);
 step_harness!(c12_t_tomb_attacker_add_it, 8, 0, false, true, [(0, 0, 0), (0, 1, 0), (2, 0, 1), (1, 0, 0)]);
 step_harness!(c12_q_tomb_attacker_rmarg_cnt, 8, 1, true, false, [(0, 0, 0), (0, 1, 0), (2, 0, 1), (1, 0, 0)]);
-step_harness!(c12_x_tomb_attacker_rmarg_it, 8, 1, false, true, [(0, 0, 0), (0, 1, 0), (2, 0, 1), (1, 0, 0)]);
+step_harness!(c12_z_tomb_attacker_rmarg_it, 8, 1, false, true, [(0, 0, 0), (0, 1, 0), (2, 0, 1), (1, 0, 0)]);
 step_harness!(c12_q_tomb_attacker_att_cnt, 8, 2, true, false, [(0, 0, 0), (0, 1, 0), (2, 0, 1), (1, 0, 0)]);
 step_harness!(c12_t_tomb_attacker_rmatt_cnt, 8, 3, true, false, [(0, 0, 0), (0, 1, 0), (2, 0, 1), (1, 0, 0)]);
 step_harness!(c12_x_tomb_attacker_rmatt_it, 8, 3, false, true, [(0, 0, 0), (0, 1, 0), (2, 0, 1), (1, 0, 0)]);
@@ -88,14 +88,14 @@ step_harness!(c12_t_readded_rmarg_cnt, 9, 1, true, false, [(0, 0, 0), (0, 1, 0),
 step_harness!(c12_x_readded_rmarg_it, 9, 1, false, true, [(0, 0, 0), (0, 1, 0), (2, 0, 1), (1, 1, 0), (0, 1, 0), (2, 1, 1)]);
 step_harness!(c12_t_readded_att_cnt, 9, 2, true, false, [(0, 0, 0), (0, 1, 0), (2, 0, 1), (1, 1, 0), (0, 1, 0), (2, 1, 1)]);
 step_harness!(c12_q_readded_rmatt_cnt, 9, 3, true, false, [(0, 0, 0), (0, 1, 0), (2, 0, 1), (1, 1, 0), (0, 1, 0), (2, 1, 1)]);
-step_harness!(c12_x_readded_rmatt_it, 9, 3, false, true, [(0, 0, 0), (0, 1, 0), (2, 0, 1), (1, 1, 0), (0, 1, 0), (2, 1, 1)]);
+step_harness!(c12_z_readded_rmatt_it, 9, 3, false, true, [(0, 0, 0), (0, 1, 0), (2, 0, 1), (1, 1, 0), (0, 1, 0), (2, 1, 1)]);
 step_harness!(c12_t_detached_add_cnt, 8, 0, true, false, [(0, 0, 0), (0, 1, 0), (2, 0, 1), (2, 1, 0), (3, 0, 1)]);
 step_harness!(c12_t_detached_add_it, 8, 0, false, true, [(0, 0, 0), (0, 1, 0), (2, 0, 1), (2, 1, 0), (3, 0, 1)]);
 step_harness!(c12_q_detached_rmarg_cnt, 8, 1, true, false, [(0, 0, 0), (0, 1, 0), (2, 0, 1), (2, 1, 0), (3, 0, 1)]);
-step_harness!(c12_x_detached_rmarg_it, 8, 1, false, true, [(0, 0, 0), (0, 1, 0), (2, 0, 1), (2, 1, 0), (3, 0, 1)]);
+step_harness!(c12_z_detached_rmarg_it, 8, 1, false, true, [(0, 0, 0), (0, 1, 0), (2, 0, 1), (2, 1, 0), (3, 0, 1)]);
 step_harness!(c12_t_detached_att_cnt, 8, 2, true, false, [(0, 0, 0), (0, 1, 0), (2, 0, 1), (2, 1, 0), (3, 0, 1)]);
 step_harness!(c12_t_detached_rmatt_cnt, 8, 3, true, false, [(0, 0, 0), (0, 1, 0), (2, 0, 1), (2, 1, 0), (3, 0, 1)]);
-step_harness!(c12_x_detached_rmatt_it, 8, 3, false, true, [(0, 0, 0), (0, 1, 0), (2, 0, 1), (2, 1, 0), (3, 0, 1)]);
+step_harness!(c12_z_detached_rmatt_it, 8, 3, false, true, [(0, 0, 0), (0, 1, 0), (2, 0, 1), (2, 1, 0), (3, 0, 1)]);
 step_harness!(c12_q_emptied_add_cnt, 7, 0, true, false, [(0, 0, 0), (1, 0, 0)]);
 step_harness!(c12_t_emptied_add_it, 7, 0, false, true, [(0, 0, 0), (1, 0, 0)]);
 step_harness!(c12_t_emptied_rmarg_cnt, 7, 1, true, false, [(0, 0, 0), (1, 0, 0)]);
